@@ -54,6 +54,9 @@ fn main() {
     if id == "selftest" {
         std::process::exit(props::selftest::run());
     }
+    if args.len() >= 4 && args[2] == "--misuse" {
+        std::process::exit(props::c17::misuse_child(&args[3]));
+    }
     if args.len() >= 4 && args[2] == "--replay" {
         std::process::exit(props::replay(&id, &args[3]));
     }
